@@ -497,7 +497,7 @@ def run(rep, tier, seed):
     per_pair = 2 if tier == "quick" else 12
     n_triples = 5000 if tier == "quick" else 60000
     rep.rule = (
-        "syntax trees over %d forms: every ordered pair (outer form, inner form) forced %d times, %d forced triples, %d random trees to depth 5; each tree is rendered fully parenthesised, minimally "
+        "syntax trees over %d forms: every ordered pair (outer form, inner form) forced %d times, %d forced triples, %d random trees to depth 5, a targeted family in which an iteration variable or formal parameter is spelled like a bound name that is used again next to an operator after the construct; each tree is rendered fully parenthesised, minimally "
         "parenthesised, minimally with each strictly needed pair removed (one at a time), and in 2 token-preserving layouts; leaves: bound single-word names, numbers in several spellings, strings. "
         "Plus the string-escape sweep over code-point classes. Distinct = rendered text; non-trivial = tree with at least two forms." % (len(FORMS), per_pair, n_triples, n_random)
     )
@@ -525,6 +525,18 @@ def run(rep, tier, seed):
         for px in (p3, p4):
             trees += [("list", [px]), ("neg", ("+", px, one)), ("*", ("+", px, one), one), ("call", ("name", FN), [("*", ("+", px, one), one)]), ("filter", ("list", [px]), ("-", px, one)),
                       ("if", ("=", ("*", ("+", px, one), one), one), px, ("list", [px, px]))]
+    # targeted family: an iteration variable / formal parameter spelled like a BOUND name, and that name next to an
+    # operator right after the construct has ended (the token boundaries there depend on which names are in scope again)
+    A, B, C = NAMES[0], NAMES[1], NAMES[2]
+    nA, nB, nC = ("name", A), ("name", B), ("name", C)
+    binders = [
+        ("for", [(A, nB)], nA), ("for", [(A, nB), (C, nB)], ("+", nA, nC)), ("forrange", A, one, one, nA), ("some", [(A, nB)], ("=", nA, one)), ("every", [(A, nB)], ("=", nA, nC)),
+        ("function", [A], nA), ("function", [A, C], ("-", nA, nC)),
+    ]
+    for bt in binders:
+        for op in ("+", "-", "*", "/"):
+            trees += [("list", [bt, (op, nA, nC)]), ("list", [bt, (op, nC, nA), nA]), ("context", [("k", bt), ("m", (op, nA, nC))]), ("if", ("=", nA, one), ("list", [bt]), (op, nA, nC))]
+        trees += [("list", [bt, ("path", nA, "k")]), ("list", [bt, ("filter", nA, one)]), ("list", [bt, ("call", ("name", FN), [nA, nC])])]
     for _ in range(n_triples):
         trees.append(gen(rng, 4, [rng.choice(FORMS), rng.choice(FORMS), rng.choice(FORMS)]))
     for _ in range(n_random):
